@@ -100,7 +100,7 @@ type Req struct {
 	RPC     int  `json:"rpc"`
 	Ds      int  `json:"ds"`    // dataset selector: 0..3 = k-th created dataset (mod), 4 unknown uuid, 5 empty, 6 15 bytes, 7 17 bytes
 	Part    int  `json:"part"`  // partition selector: 0..2 = k-th partition of the dataset, 3 unknown, 4 malformed
-	Id      int  `json:"id"`    // item id selector: 0..5 pool, 6 empty, 7 15 bytes, 8 17 bytes
+	Id      int  `json:"id"`    // item id selector: 0..5 pool, 6 empty, 7 15 bytes, 8 17 bytes, 9 a pool id as 36-byte text, 10 as 32 hex digits
 	Vec     int  `json:"vec"`   // 0 right dimension, 1 empty, 2 dim+1, 3 NaN, 4 +Inf, 5 huge magnitudes, 6 dim-1, 7 right dimension, non-round components, all such vectors are scaled copies of one direction (valid)
 	Meta    int  `json:"meta"`  // 0 none, 1 small, 2 empty key, 3 256-byte key, 4 70000-byte value, 5 300 keys, 6 128-rune/256-byte key, 7 32768-rune/65536-byte value, 8 at the limits (255-byte key, 65535-byte value), 9 multi-byte at the limits
 	K       int  `json:"k"`     // search k selector
@@ -163,7 +163,7 @@ func genCase(t *rapid.T) Case {
 	// hostile item ids sometimes
 	for i := range c.Reqs {
 		if rapid.IntRange(0, 9).Draw(t, "badid") == 0 {
-			c.Reqs[i].Id = rapid.IntRange(6, 8).Draw(t, "idsel")
+			c.Reqs[i].Id = rapid.IntRange(6, 10).Draw(t, "idsel")
 		}
 	}
 	return c
@@ -356,6 +356,10 @@ func idBytes(sel int) []byte {
 		return bytes.Repeat([]byte{9}, 15)
 	case 8:
 		return bytes.Repeat([]byte{9}, 17)
+	case 9:
+		return []byte(gen.ID(60).String()) // a pool id in its 36-byte canonical text form
+	case 10:
+		return []byte(strings.ToUpper(strings.ReplaceAll(gen.ID(61).String(), "-", ""))) // 32 hex digits
 	}
 	return gen.ID(60 + sel).Bytes()
 }
@@ -441,7 +445,7 @@ func (r Req) batchItems(dim uint32) []*pb.BatchItem {
 		j := len(items) / 2
 		switch r.BadItem {
 		case 1:
-			items[j].Id = idBytes(7 + r.Id%2)
+			items[j].Id = idBytes(7 + r.Id%4)
 		case 2:
 			items[j].Value = vector(2, dim, 1)
 		case 3:
